@@ -46,7 +46,23 @@ def _cell(d, col):
     v = d[col] if isinstance(d, (list, tuple)) else d["c%d" % col]
     if v is RAISES:
         raise Boom("quantity raised")
+    if v is WRONG and col in NUM_COLS_SET:
+        # a value of a type no numeric primitive accepts; which one is derived from the record itself (replayable)
+        return wrong_value(d)
     return v
+
+
+NUM_COLS_SET = (0, 1, 2, 3)
+
+
+def wrong_value(d):
+    k = 0
+    for c in NUM_COLS_SET:
+        x = d[c] if isinstance(d, (list, tuple)) else None
+        if isinstance(x, (int, float)) and not isinstance(x, bool) and x == x and abs(x) != float("inf"):
+            k = int(abs(x) * 8)
+            break
+    return [WRONG, "oops", None, [1.0], complex(1.0, 1.0), {"a": 1.0}, complex(0.0, 2.0)][k % 7]
 
 
 def make_quantity(col):
@@ -179,6 +195,12 @@ def mkq(q):
         from histogrammar.util import cached
 
         return cached("c%d" % col)
+    if form in ("namedstr", "cachednamedstr"):
+        # a string expression with an explicit name that differs from its text
+        from histogrammar.util import cached
+
+        f = named(name, "c%d" % col) if name is not None else "c%d" % col
+        return cached(f) if form == "cachednamedstr" else f
     f = make_quantity(col)
     if form == "cached":
         from histogrammar.util import cached
@@ -193,6 +215,8 @@ def effective_name(q):
         return "col%d" % q[0]
     if form in ("str", "cachedstr"):
         return "c%d" % q[0]
+    if form in ("namedstr", "cachednamedstr"):
+        return q[1] if q[1] is not None else "c%d" % q[0]
     return q[1]
 
 
